@@ -59,7 +59,7 @@ theorem liveCounted_pos (s : S) (k : Nat) (h : streamLiveCounted s k = true) : 0
 streamed response whose head was accepted — during the response pass -/
 theorem live_ctx (c : Cfg) (ar aq : Nat) (s : S) (h : Inv c ar aq s) (hl : 0 < liveCount s.streams) :
     s.cleaned = false ∧ c.oneway = false ∧
-    (fwdPhase s.phase = true ∨ (upPhase s.phase = true ∧ s.urr = true ∧ respHasMore s.resp = true)) := by
+    (fwdPhase s.phase = true ∨ (upPhase s.phase = true ∧ s.urr = true ∧ respHasMore s.resp = true ∧ s.rs.isSome = true)) := by
   have hc : s.cleaned = false := by
     cases hcl : s.cleaned with
     | false => rfl
@@ -75,7 +75,7 @@ theorem live_ctx (c : Cfg) (ar aq : Nat) (s : S) (h : Inv c ar aq s) (hl : 0 < l
   · exact Or.inl hp
   · rcases (h.k15 hc hp).1 with h0 | h1
     · omega
-    · exact Or.inr ⟨hp, h1.1, h1.2⟩
+    · exact Or.inr ⟨hp, h1.1, h1.2.1, h1.2.2⟩
   · exact absurd hp (h.k19 hc)
 
 /-- the facts available when a counted client stream is live and no response was accepted -/
@@ -99,8 +99,7 @@ theorem phase_excl_up (p : Phase) : (upPhase p = true → prePhase p = false ∧
 open stream of a streamed response — at any later point (a reset is then delivered only while the worker waits for
 the body: phases `UpRecvData` / `UpRecvTrailer`) -/
 theorem inv_reset_destroy (c : Cfg) (ar aq : Nat) (s : S) (k : Nat) (r : Reason) (fire : Bool) (h : Inv c ar aq s)
-    (hlc : streamLiveCounted s k = true)
-    (hfire : fire = true → s.urr = true → s.phase = .UpRecvData ∨ s.phase = .UpRecvTrailer ∨ s.phase = .UpFilter) :
+    (hlc : streamLiveCounted s k = true) :
     Inv c ar aq (destroyStream c (if fire then upOnResetStream s r else s) k) := by
   have hlpos := liveCounted_pos s k hlc
   obtain ⟨hcl, how, hph⟩ := live_ctx c ar aq s h hlpos
@@ -160,17 +159,13 @@ theorem inv_reset_destroy (c : Cfg) (ar aq : Nat) (s : S) (k : Nat) (r : Reason)
     · intro _ hh; exact absurd hh (by simp [hpre])
     · intro hh; exact absurd hh (by simp [how])
     · intro _ hfwd hu
-      rcases k27 hcl hfwd hu with h | ⟨h1, _⟩
+      rcases k27 hcl hfwd hu with h | ⟨h1, _⟩ | h
       · left; exact h
-      · right; exact ⟨h1, Or.inl hl0⟩
-  · rcases hph with hfwd | ⟨hupp, hurr, hmore⟩
+      · right; left; exact ⟨h1, Or.inl hl0⟩
+      · right; right; exact h
+  · rcases hph with hfwd | ⟨hupp, hurr, hmore, hrsome⟩
     · -- while forwarding (no response accepted yet, or accepted and still waiting to be picked up)
       obtain ⟨_, hup, _⟩ := phase_excl s.phase hfwd
-      have hnu : s.urr = false := by
-        cases hu : s.urr with
-        | false => rfl
-        | true =>
-          rcases hfire rfl hu with hp | hp | hp <;> (rw [hp] at hfwd; simp [fwdPhase] at hfwd)
       refine ⟨k0, k1, k2, k3, k4, k5, k6, h7', k8, k9, hd.1, hd.2.1, k12, ?_, hd.2.2, ?_, k16, ?_, ?_, k19, ?_, k21, h22, h23, k24, k25, ?_, ?_, ?_, k29, h30, k31, k32, (fun hh => absurd hh (by simp [upOnResetStream, hcl]))⟩
       · intro hh; exact absurd hh (by simp [upOnResetStream, hcl])
       · intro _ hh; exact absurd hh (by simp [upOnResetStream, hup])
@@ -183,17 +178,20 @@ theorem inv_reset_destroy (c : Cfg) (ar aq : Nat) (s : S) (k : Nat) (r : Reason)
       · intro _ _; right; left; simp [upOnResetStream, hsr]
     · -- the open stream of a streamed response is reset while the worker waits for the body
       obtain ⟨hpre', hfw, _, _, _, _⟩ := phase_excl_up s.phase hupp
-      have hphase := hfire rfl hurr
+      have hphase : s.phase = .UpFilter ∨ s.phase = .UpRecvHeader ∨ s.phase = .UpRecvData ∨ s.phase = .UpRecvTrailer := by
+        revert hupp; cases s.phase <;> simp [upPhase]
       obtain ⟨_, b2, _, b4, b5, b6, b7⟩ := k15 hcl hupp
       refine ⟨k0, k1, k2, k3, k4, k5, k6, h7', k8, k9, hd.1, hd.2.1, k12, ?_, hd.2.2, ?_, ?_, ?_, ?_, k19, ?_, k21, h22, h23, k24, k25, ?_, ?_, ?_, k29, h30, k31, k32, (fun hh => absurd hh (by simp [upOnResetStream, hcl]))⟩
       · intro hh; exact absurd hh (by simp [upOnResetStream, hcl])
       · intro _ _
         refine ⟨Or.inl hl0, by simpa [upOnResetStream] using b2, fun _ => by
-            show s.phase = .UpRecvData ∨ s.phase = .UpRecvTrailer ∨ (s.phase = .UpFilter ∧ s.urr = true)
-            rcases hphase with hq | hq | hq
+            show s.phase = .UpRecvData ∨ s.phase = .UpRecvTrailer ∨
+              ((s.phase = .UpFilter ∨ s.phase = .UpRecvHeader) ∧ s.urr = true ∧ s.rs.isSome = true)
+            rcases hphase with hq | hq | hq | hq
+            · exact Or.inr (Or.inr ⟨Or.inl hq, hurr, hrsome⟩)
+            · exact Or.inr (Or.inr ⟨Or.inr hq, hurr, hrsome⟩)
             · exact Or.inl hq
-            · exact Or.inr (Or.inl hq)
-            · exact Or.inr (Or.inr ⟨hq, hurr⟩),
+            · exact Or.inr (Or.inl hq),
           Or.inr (by simpa [upOnResetStream] using hurr), by simpa [upOnResetStream] using b5,
           by simpa [upOnResetStream] using b6, by simpa [upOnResetStream] using b7⟩
       · intro _ hh; exact absurd hh (by simp [upOnResetStream, hupp])
@@ -217,23 +215,7 @@ theorem inv_upReset (c : Cfg) (ar aq : Nat) (s : S) (k : Nat) (r : Reason) (h : 
       simp only [Bool.or_eq_true, Bool.not_eq_true', not_or, Bool.not_eq_false] at hcond
       obtain ⟨⟨hreal, hlive⟩, hcounted⟩ := hcond
       have hlc : streamLiveCounted s k = true := by simp [streamLiveCounted, hk, hlive, hcounted]
-      split
-      · exact h
-      · rename_i hbw
-        apply inv_reset_destroy c ar aq s k r st.listening h hlc
-        intro _ hu
-        cases hb : bodyWait s with
-        | true =>
-          simp only [bodyWait, Bool.and_eq_true, Bool.or_eq_true, beq_iff_eq] at hb
-          rcases hb.1.1.2 with hq | hq
-          · exact Or.inl hq
-          · exact Or.inr (Or.inl hq)
-        | false =>
-          cases hf : upfRunning s with
-          | true =>
-            simp only [upfRunning, Bool.and_eq_true, beq_iff_eq] at hf
-            exact Or.inr (Or.inr hf.2)
-          | false => simp [hu, hb, hf] at hbw
+      exact inv_reset_destroy c ar aq s k r st.listening h hlc
 
 /-- the streamed body ended: the codec destroys the client stream -/
 theorem inv_upEnd (c : Cfg) (ar aq : Nat) (s : S) (k : Nat) (h : Inv c ar aq s) : Inv c ar aq (upEndL c s k) := by
@@ -248,7 +230,7 @@ theorem inv_upEnd (c : Cfg) (ar aq : Nat) (s : S) (k : Nat) (h : Inv c ar aq s) 
       simp only [Bool.or_eq_true, Bool.not_eq_true', not_or, Bool.not_eq_false] at hcond
       obtain ⟨⟨⟨hreal, hlive⟩, hcounted⟩, _⟩ := hcond
       have hlc : streamLiveCounted s k = true := by simp [streamLiveCounted, hk, hlive, hcounted]
-      have := inv_reset_destroy c ar aq s k .StreamLocalReset false h hlc (fun hh => by cases hh)
+      have := inv_reset_destroy c ar aq s k .StreamLocalReset false h hlc
       simpa using this
 
 theorem inv_upResp (c : Cfg) (ar aq : Nat) (s : S) (k code : Nat) (d t : Bool) (h : Inv c ar aq s) :
@@ -293,7 +275,7 @@ theorem inv_upResp (c : Cfg) (ar aq : Nat) (s : S) (k code : Nat) (d t : Bool) (
         intro hu
         by_cases hur : s.upReset = true
         · left; exact hur
-        · right
+        · right; left
           refine ⟨?_, Or.inl hl0⟩
           simp only [Bool.not_eq_true] at hur
           simp [hnu, hur] at hu ⊢
@@ -477,7 +459,7 @@ theorem inv_globalFire (c : Cfg) (ar aq : Nat) (s : S) (h : Inv c ar aq s) : Inv
         · -- CAS lost: only the timer flag and the expiry record change
           rename_i hurr
           obtain ⟨k0, k1, k2, k3, k4, k5, k6, k7, k8, k9, k10, k11, k12, k13, k14, k15, k16, k17, k18, k19, k20, k21, k22, k23, k24, k25, k26, k27, k28, k29, k30, k31, k32, k33⟩ := h
-          refine ⟨k0, k1, k2, k3, k4, k5, k6, ?_, k8, k9, k10, k11, k12, ?_, k14, ?_, k16, ?_, ?_, k19, k20, ?_, k22, k23, ?_, k25, ?_, k27, k28, k29, ?_, k31, k32, k33⟩
+          refine ⟨k0, k1, k2, k3, k4, k5, k6, ?_, k8, k9, k10, k11, k12, ?_, k14, ?_, k16, ?_, ?_, k19, k20, ?_, k22, k23, ?_, k25, ?_, ?_, k28, k29, ?_, k31, k32, k33⟩
           · simp only [K7, Term] at k7 ⊢; grind
           · simp only [K13] at k13 ⊢; grind
           · simp only [K15] at k15 ⊢; grind
@@ -486,6 +468,7 @@ theorem inv_globalFire (c : Cfg) (ar aq : Nat) (s : S) (h : Inv c ar aq s) : Inv
           · simp only [K21] at k21 ⊢; grind
           · simp only [K24] at k24 ⊢; grind
           · simp only [K26] at k26 ⊢; grind
+          · simp only [K27] at k27 ⊢; grind
           · intro _ hp
             have := (k30 hcl hp).2.2.2.1
             rw [this] at hgt; cases hgt
@@ -542,42 +525,25 @@ theorem inv_globalFire (c : Cfg) (ar aq : Nat) (s : S) (h : Inv c ar aq s) : Inv
           · simpa [K32, upOnResetStream] using k32
           · intro hh; exact absurd hh (by simp [upOnResetStream, hcl])
 
-/-- an accepted asynchronous `TerminateStream` on a parked worker -/
-theorem inv_terminate (c : Cfg) (ar aq : Nat) (s : S) (code : Nat) (h : Inv c ar aq s) :
-    Inv c ar aq (terminateL c s code) := by
-  rw [terminateL_eq]
+/-- an accepted asynchronous `TerminateStream` while the worker is parked or ([proxy10]) asleep in `doRetry`'s back-off -/
+theorem inv_terminateAcc (c : Cfg) (ar aq : Nat) (s : S) (code : Nat) (h : Inv c ar aq s)
+    (hp : s.phase = .WaitNotify ∨ s.phase = .Retry) (hcl : s.cleaned = false) (hurr : s.urr = false)
+    (hur : s.upReset = false) (hnd : s.direct = false) :
+    Inv c ar aq (terminateAcc c s code) := by
   unfold terminateAcc
-  split
-  · exact h
-  split
-  · exact h
-  split
-  · exact h
-  split
-  · exact h
-  rename_i hpk hresp hcl hurr
-  simp only [parked, Bool.not_eq_true', Bool.not_eq_false, Bool.and_eq_true, beq_iff_eq] at hpk
-  obtain ⟨⟨hrun, hp⟩, hn⟩ := hpk
-  simp only [Bool.not_eq_true] at hresp hcl hurr
-  have hfwd : fwdPhase s.phase = true := by simp [hp, fwdPhase]
+  have hfwd : fwdPhase s.phase = true := by rcases hp with hp | hp <;> simp [hp, fwdPhase]
   obtain ⟨hpre, hup, _⟩ := phase_excl s.phase hfwd
   have how : c.oneway = false := by
     cases ho : c.oneway with
     | false => rfl
-    | true => exact absurd hp (h.k32 hcl ho).2.1
+    | true =>
+      rcases hp with hp | hp
+      · exact absurd hp (h.k32 hcl ho).2.1
+      · exact absurd hp (h.k32 hcl ho).2.2
   have hsr : s.setupRetry = false := (h.k7 hcl).1
-  have hnd : s.direct = false := not_direct_of_quiet h.k7 hcl hn
   have hrst : s.respStarted = false := h.k16 hcl hup
   have h18 := h.k18 hcl hfwd
   simp only [how, Bool.false_eq_true, false_and, false_or] at h18
-  have hur : s.upReset = false := by
-    cases hh : s.upReset with
-    | false => rfl
-    | true => have := h18.2.2.1 (Or.inr (Or.inl hh)); rw [hn] at this; cases this
-  have hdr : s.downReset = false := by
-    cases hh : s.downReset with
-    | false => rfl
-    | true => have := h18.2.2.1 (Or.inr (Or.inr hh)); rw [hn] at this; cases this
   have hled := resetUpstream_ledger c aq s ⟨h.k10, h.k11, h.k14⟩
   obtain ⟨k0, k1, k2, k3, k4, k5, k6, k7, k8, k9, k10, k11, k12, k13, k14, k15, k16, k17, k18, k19, k20, k21, k22, k23, k24, k25, k26, k27, k28, k29, k30, k31, k32, k33⟩ := h
   refine ⟨?_, ?_, ?_, ?_, ?_, ?_, ?_, ?_, ?_, ?_, hled.1.1, hled.1.2.1, ?_, ?_, hled.1.2.2, ?_, ?_, ?_, ?_, ?_, ?_, ?_,
@@ -591,7 +557,7 @@ theorem inv_terminate (c : Cfg) (ar aq : Nat) (s : S) (code : Nat) (h : Inv c ar
   · simpa [K6] using k6
   · intro _
     refine ⟨by simp [hsr], fun _ => ?_⟩
-    exact ⟨by simp [hp], rfl, rfl, by simp [hur], rfl, allDead_liveCount hled.2, rfl, rfl⟩
+    exact ⟨by simpa using hp, rfl, rfl, by simp [hur], rfl, allDead_liveCount hled.2, rfl, rfl⟩
   · simpa [K8] using k8
   · simpa [K9, heldRetry, rsHeld] using k9
   · simpa [K12] using k12
@@ -601,22 +567,129 @@ theorem inv_terminate (c : Cfg) (ar aq : Nat) (s : S) (code : Nat) (h : Inv c ar
   · intro _ hh; exact absurd hh (by simp [hpre])
   · intro _ _
     right
-    refine ⟨by simpa using h18.1, by simpa using h18.2.1, fun _ => rfl, ?_, fun _ _ => Or.inr (Or.inr rfl), ?_⟩
-    · intro hh; exact h18.2.2.2.1 (by simpa using hh) ▸ rfl
-    · intro _; have := h18.2.2.2.2.2 hp; simp only [or_false] at this; left; simpa using this
+    refine ⟨by simpa using h18.1, by simpa using h18.2.1, fun _ => Or.inl rfl, fun _ => Or.inl rfl, fun _ _ => Or.inr (Or.inr rfl), ?_⟩
+    intro hw
+    have := h18.2.2.2.2.2 (by simpa using hw)
+    simp only [how, Bool.false_eq_true, or_false] at this
+    left; simpa using this
   · simpa [K19] using k19
   · intro hh; exact absurd hh (by simp [how])
   · intro hh; exact absurd hh (by simp [how])
   · intro _ _ _ _; right; right; rfl
   · simpa [K25] using k25
-  · intro _ hh; exact absurd hh (by simp [hp])
-  · intro _ _ _; right; exact ⟨rfl, Or.inl (allDead_liveCount hled.2)⟩
+  · intro _ hh
+    have hq : s.phase = .Retry := by simpa using hh
+    have h26 := k26 hcl hq
+    refine ⟨rfl, fun hu => ?_, fun _ => Or.inr (Or.inl rfl), ?_⟩
+    · have : s.upReset = true := by simpa using hu
+      rw [hur] at this; cases this
+    · have hup2 := h26.2.2.2
+      simp [resetUpstream, curStream, hup2]
+  · intro _ _ _; right; left; exact ⟨rfl, Or.inl (allDead_liveCount hled.2)⟩
   · intro _ _; left; rfl
   · simpa [K29] using k29
-  · intro _ hh; simp [hp] at hh
+  · intro _ hh
+    rcases hp with hp | hp <;> simp [hp] at hh
   · simpa [K31] using k31
   · simpa [K32] using k32
   · intro hh; exact absurd hh (by simp [hcl])
+
+/-- the label `terminate`: refused (no-op) or accepted -/
+theorem inv_terminate (c : Cfg) (ar aq : Nat) (s : S) (code : Nat) (h : Inv c ar aq s) :
+    Inv c ar aq (terminateL c s code) := by
+  rw [terminateL_eq]
+  split
+  · exact h
+  split
+  · exact h
+  split
+  · exact h
+  split
+  · exact h
+  rename_i hpk hresp hcl hurr
+  simp only [Bool.not_eq_true] at hresp hcl hurr
+  simp only [asleep, Bool.not_eq_true', Bool.not_eq_false, Bool.or_eq_true] at hpk
+  rcases hpk with hpk | hpk
+  · -- parked in waitNotify, nothing signalled
+    simp only [parked, Bool.not_eq_true', Bool.and_eq_true, beq_iff_eq] at hpk
+    obtain ⟨⟨hrun, hp⟩, hn⟩ := hpk
+    have hfwd : fwdPhase s.phase = true := by simp [hp, fwdPhase]
+    have how : c.oneway = false := by
+      cases ho : c.oneway with
+      | false => rfl
+      | true => exact absurd hp (h.k32 hcl ho).2.1
+    have h18 := h.k18 hcl hfwd
+    simp only [how, Bool.false_eq_true, false_and, false_or] at h18
+    have hur : s.upReset = false := by
+      cases hh : s.upReset with
+      | false => rfl
+      | true =>
+        rcases h18.2.2.1 (Or.inr (Or.inl hh)) with h1 | h1
+        · rw [hn] at h1; cases h1
+        · rw [hp] at h1; exact absurd h1.1 (by decide)
+    exact inv_terminateAcc c ar aq s code h (Or.inl hp) hcl hurr hur (not_direct_of_quiet h.k7 hcl hn)
+  · -- asleep in doRetry's back-off
+    simp only [backoff, Bool.and_eq_true, beq_iff_eq] at hpk
+    have hur : s.upReset = false := by
+      cases hh : s.upReset with
+      | false => rfl
+      | true => have := ((h.k26 hcl hpk.2).2.1 hh).2; rw [hurr] at this; cases this
+    exact inv_terminateAcc c ar aq s code h (Or.inr hpk.2) hcl hurr hur (not_direct_of_not_urr h.k7 hcl hurr)
+
+/-- [proxy10] the global timer callback inside `setupRetry`: timer fired, expiry recorded, the response slot taken or not -/
+theorem inv_gtInSetup (c : Cfg) (ar aq : Nat) (s : S) (b : Bool) (h : Inv c ar aq s) : Inv c ar aq (gtInSetup s b) := by
+  unfold gtInSetup
+  split
+  · exact h
+  rename_i hcond
+  simp only [Bool.not_eq_true', Bool.not_eq_false, Bool.and_eq_true] at hcond
+  obtain ⟨hb, hg⟩ := hcond
+  simp only [backoff, Bool.and_eq_true, beq_iff_eq] at hb
+  obtain ⟨hrun, hp⟩ := hb
+  have hcl : s.cleaned = false := by
+    have := h.k0; simp only [K0] at this; rw [hrun] at this; simpa using this
+  have hfwd : fwdPhase s.phase = true := by simp [hp, fwdPhase]
+  obtain ⟨hpre, hup, _⟩ := phase_excl s.phase hfwd
+  have how : c.oneway = false := by
+    cases ho : c.oneway with
+    | false => rfl
+    | true => exact absurd hp (h.k32 hcl ho).2.2
+  have hnd : s.direct = false := not_direct_of_timer h.k7 hcl (Or.inr hg)
+  have hrec : globalCallbackRecordsExpiry = true := by decide
+  simp only [hrec, Bool.or_true]
+  have h18 := h.k18 hcl hfwd
+  simp only [how, Bool.false_eq_true, false_and, false_or] at h18
+  have h26 := h.k26 hcl hp
+  obtain ⟨k0, k1, k2, k3, k4, k5, k6, k7, k8, k9, k10, k11, k12, k13, k14, k15, k16, k17, k18, k19, k20, k21, k22, k23, k24, k25, k26, k27, k28, k29, k30, k31, k32, k33⟩ := h
+  refine ⟨k0, k1, k2, k3, k4, k5, k6, ?_, k8, k9, k10, k11, k12, ?_, k14, ?_, k16, ?_, ?_, k19, k20, ?_, k22, k23, ?_, k25, ?_, ?_, ?_, k29, ?_, k31, k32, k33⟩
+  · exact k7_intro (by simpa using (k7 hcl).1) (by simpa using hnd)
+  · intro hh; exact absurd hh (by simp [hcl])
+  · intro _ hh; exact absurd hh (by simp [hup])
+  · intro _ hh; exact absurd hh (by simp [hpre])
+  · intro _ _
+    right
+    refine ⟨h18.1, h18.2.1, ?_, fun _ => Or.inr hp, fun _ _ => Or.inr (Or.inl rfl), fun hw => absurd hw (by simp [hp])⟩
+    intro hh
+    by_cases hx : s.urr = true ∨ s.upReset = true ∨ s.downReset = true
+    · rcases h18.2.2.1 hx with h1 | h1
+      · exact Or.inl h1
+      · exact Or.inr ⟨hp, rfl, h1.2.2.1, h1.2.2.2⟩
+    · simp only [not_or, Bool.not_eq_true] at hx
+      exact Or.inr ⟨hp, rfl, hx.2.1, hx.2.2⟩
+  · intro hh; exact absurd hh (by simp [how])
+  · intro _ _ _ _; right; left; rfl
+  · intro _ _
+    refine ⟨h26.1, fun hu => ⟨rfl, ?_⟩, fun _ => Or.inr (Or.inr rfl), h26.2.2.2⟩
+    have := (h26.2.1 hu).2
+    simp [this]
+  · intro _ _ _; right; right; exact ⟨hp, rfl⟩
+  · intro _ hn
+    rcases k28 hcl hn with h1 | h1 | h1
+    · left; simp [h1]
+    · right; left; exact h1
+    · right; right; exact h1
+  · intro _ hh
+    rcases hh with hh | hh <;> (rw [hp] at hh; cases hh)
 
 /-- **late response during the back-off is ignored**: in every state satisfying the invariant the label is a no-op — while
 the worker sleeps in `doRetry` the stream's current upstream request is the fresh one `processError` installed (K26), so
@@ -664,5 +737,6 @@ theorem inv_async (c : Cfg) (ar aq : Nat) (s : S) (l : Label) (hl : l ≠ .work)
     simp only [step]
     rw [lateBackoff_noop c ar aq s k d t h]
     exact h
+  | gtInSetup b => exact inv_gtInSetup c ar aq s b h
 
 end MosnVerif.Model.Downstream
